@@ -169,6 +169,7 @@ pub fn prop() -> HistProp {
         weights: {
             let mut w = Weights::trading();
             w.alias = 8;
+            w.rewire = 1;
             w
         },
         min_ops: 6,
